@@ -17,6 +17,7 @@ Definition missing := filter (fun e => negb (site_present writers e)) expected_s
 Eval vm_compute in (map (fun w => (w_file w, w_line w, w_func w, w_callee w, w_kind w)) bad).
 Eval vm_compute in (map (fun e => match e with (f, fn, c, n, _) => (f, fn, c, n) end) over).
 Eval vm_compute in missing.
+Eval vm_compute in (copy_skip_pure, copy_skip_names).
 """
 
 
@@ -58,6 +59,18 @@ def writers_report(ctx):
                  % (n, callee, fl),
                  finding_key="writers-missing-%s-%s" % (fl, callee), failing_input_found=True,
                  detail={"case": {"id": 9000 + k, "desc": {"file": fl, "callee": callee, "expected_at_least": int(n)}}})
+    # round 8 (P): the skip list of updater.copySupportingFiles (in-place copy into the working directory)
+    skip = blocks[3] if len(blocks) > 3 else ""
+    if skip and not (skip.startswith("(true") and '"AdGuardHome.yaml"' in skip):
+        k += 1
+        ctx.fail("property-failure",
+                 "updater.copySupportingFiles (in-place os.WriteFile into the working directory) does not provably skip the "
+                 "configuration file: the skip condition is %s; an update package with an entry AdGuardHome.yaml is copied over the "
+                 "live configuration in place" % skip[:200],
+                 finding_key="writers-updater-copy-skip", failing_input_found=True,
+                 detail={"case": {"id": 9000 + k, "desc": {"file": "internal/updater/updater.go", "function": "copySupportingFiles",
+                                                            "skip_condition_pure_and_names": skip[:300],
+                                                            "judge": "Proofs.Writers.copy_skips_protect_config"}}})
     return k
 
 
